@@ -2290,6 +2290,23 @@ def ext_call(it, dotted, args, kw):
             r = Vec(order)
             r.exact = True
             return r
+    if name == "np.digitize" and len(args) == 2 and set(kw) <= {"right"}:
+        # for increasing bins: the number of bin edges <= x (right=False) or < x (right=True)
+        edges = list(args[1].v) if isinstance(args[1], Vec) else list(args[1])
+        lit = _lits(edges)
+        if lit is None or any(a >= b for a, b in zip(lit, lit[1:])):
+            raise Undecided("np.digitize with bin edges that are not literal and increasing")
+        opn = ast.Gt() if kw.get("right") else ast.GtE()
+
+        def dig(x):
+            if is_nan(x):
+                return len(lit)
+            n_ = 0
+            for e_ in lit:
+                if _ai().truth(_ai().compare(opn, x, e_)):
+                    n_ += 1
+            return n_
+        return lift1(dig, args[0]) if isinstance(args[0], Vec) else dig(args[0])
     if name == "np.count_nonzero" and len(args) == 1 and not kw and isinstance(args[0], Vec):
         if all(isinstance(x, bool) for x in args[0].v):
             # the number of rows a literal mask selects (exact table), or -- one slot per row class -- zero when no class is selected, else some positive count
